@@ -1,8 +1,9 @@
 #!/bin/bash
-# usage: tools/seeds.sh <tier> <prop>... ; runs seeds 0 1 2 7 12345 11 23
+# usage: [SEEDS="0 1 2"] tools/seeds.sh <tier> <prop>... ; default seeds 0 1 2 7 12345 11 23. Runs from any checkout.
+root=$(cd "$(dirname "$0")/.." && pwd)
 tier=$1; shift
-for p in "$@"; do for s in 0 1 2 7 12345 11 23; do
-  out=$(VERIF_SEED=$s python3 /verif/run.py $p $tier 2>&1); rc=$?
+for p in "$@"; do for s in ${SEEDS:-0 1 2 7 12345 11 23}; do
+  out=$(VERIF_SEED=$s python3 $root/run.py $p $tier 2>&1); rc=$?
   echo "$p seed=$s rc=$rc $(echo "$out" | grep -E "^$p " | head -1)"
   if [ $rc -ne 0 ]; then echo "$out" | grep -E "sig=|VIOLATION|BROKEN" | cut -c1-400 | sort | uniq -c | head -5; fi
 done; done
